@@ -1,4 +1,5 @@
 """C16 - waveform dumps replay the simulation exactly."""
+import keyword
 import os
 import traceback
 
@@ -23,7 +24,7 @@ def plan(tier, seed):
 
 
 def thresholds(tier):
-  t = {"designs": 150, "signal_cycle_comparisons": 20000, "shared_symbols": 50, "textwave_comparisons": 10000, "change_records_parsed": 5000, "designs_with_inputs_echoing_tied_constants": 30, "big_designs": 1}
+  t = {"designs": 150, "signal_cycle_comparisons": 20000, "shared_symbols": 50, "textwave_comparisons": 10000, "change_records_parsed": 5000, "designs_with_inputs_echoing_tied_constants": 30, "big_designs": 1, "ifc_designs": 60}
   if tier == "thorough":
     t = {k: v * 15 for k, v in t.items()}
     t["big_designs"] = 1                      # one per run (shard 0)
@@ -225,9 +226,138 @@ def run_big_case(sh):
     except OSError: pass
 
 
+IFC_NAMES = ["bus", "regs", "ss", "as_", "ps", "bu", "ifc", "xs", "us"]
+PORT_NAMES = ["y", "s", "en", "x", "s_y", "ys", "sy"]
+
+
+def gen_ifc_design(rng):
+  """a two-level design whose signals sit in (lists of) interfaces of the top component and of its children; the names are
+  chosen so that one name is a prefix / suffix / substring of another (bus.y next to a plain port 'buy', interface 's'-endings).
+  -> (source, {signal path: (width, host component path)}, [(top-level input path, width)])"""
+  W = rng.choice([2, 4, 8])
+  pin0, pin1, pout = rng.sample(PORT_NAMES, 3)
+  names = rng.sample(IFC_NAMES, 3)
+  top_scalar, top_list, child_ifc = names
+  L = ["from pymtl3 import *", "class XI(Interface):", "  def construct(s, W):",
+       f"    s.{pin0} = InPort(W); s.{pin1} = InPort(1); s.{pout} = OutPort(W)",
+       "class Child(Component):", "  def construct(s, W, K):", f"    s.{child_ifc} = XI(W)", "    @update", "    def up():",
+       f"      if s.{child_ifc}.{pin1}: s.{child_ifc}.{pout} @= s.{child_ifc}.{pin0} + K",
+       f"      else: s.{child_ifc}.{pout} @= s.{child_ifc}.{pin0} ^ K"]
+  nl = rng.randrange(1, 3)
+  kid_scalar = rng.choice(["c", "cs", "kid", "u"])
+  kid_list = rng.choice([n for n in ["kids", "ks", "cs", "us_"] if n != kid_scalar])
+  L += ["class Top(Component):", "  def construct(s):", f"    s.{top_scalar} = XI({W})",
+        f"    s.{top_list} = [XI({W}) for _ in range({nl})]",
+        f"    s.{kid_scalar} = Child({W}, {rng.randrange(1, 4)})",
+        f"    s.{kid_list} = [Child({W}, 1 + (i + {rng.randrange(3)}) % 3) for i in range({nl})]"]
+  sigs = {"s.clk": (1, "s"), "s.reset": (1, "s")}
+  inputs = []
+  def ifc(path, host, w, is_top):
+    for pn, pw in ((pin0, w), (pin1, 1), (pout, w)):
+      sigs[f"{path}.{pn}"] = (pw, host)
+    if is_top:
+      inputs.append((f"{path}.{pin0}", w)); inputs.append((f"{path}.{pin1}", 1))
+  ifc(f"s.{top_scalar}", "s", W, True)
+  ifc(f"s.{kid_scalar}.{child_ifc}", f"s.{kid_scalar}", W, False)
+  sigs[f"s.{kid_scalar}.clk"] = (1, f"s.{kid_scalar}"); sigs[f"s.{kid_scalar}.reset"] = (1, f"s.{kid_scalar}")
+  for pn in (pin0, pin1): L.append(f"    s.{kid_scalar}.{child_ifc}.{pn} //= s.{top_scalar}.{pn}")
+  L.append(f"    s.{top_scalar}.{pout} //= s.{kid_scalar}.{child_ifc}.{pout}")
+  for i in range(nl):
+    ifc(f"s.{top_list}[{i}]", "s", W, True)
+    ifc(f"s.{kid_list}[{i}].{child_ifc}", f"s.{kid_list}[{i}]", W, False)
+    sigs[f"s.{kid_list}[{i}].clk"] = (1, f"s.{kid_list}[{i}]"); sigs[f"s.{kid_list}[{i}].reset"] = (1, f"s.{kid_list}[{i}]")
+    for pn in (pin0, pin1): L.append(f"    s.{kid_list}[{i}].{child_ifc}.{pn} //= s.{top_list}[{i}].{pn}")
+    L.append(f"    s.{top_list}[{i}].{pout} //= s.{kid_list}[{i}].{child_ifc}.{pout}")
+  # plain ports whose names are what is left of '<ifc>.<port>' when pieces of the dotted name are dropped
+  used = {top_scalar, top_list, kid_scalar, kid_list}
+  for k, (a, b) in enumerate([(top_scalar, pin0), (top_scalar, pout), (top_scalar[:-1], pin0), (top_list, pin0)]):
+    for nm in (a + b, a[:-1] + b if len(a) > 1 else None, a + "_" + b):
+      if nm and nm not in used and nm.isidentifier() and not keyword.iskeyword(nm) and nm not in (pin0, pin1, pout) and rng.random() < 0.5:
+        used.add(nm)
+        cv = rng.randrange(1, 1 << W)
+        L.append(f"    s.{nm} = OutPort({W})"); L.append(f"    s.{nm} //= {cv}")
+        sigs[f"s.{nm}"] = (W, "s")
+  return "\n".join(L) + "\n", sigs, inputs
+
+
+def run_ifc_case(sh, case):
+  """signals inside interfaces: every signal has its own $var under the scope of its host component, named by the rest of its
+  dotted name; values and text wave as in run_case"""
+  from pymtl3 import DefaultPassGroup
+  from pymtl3.passes.tracing.VcdGenerationPass import VcdGenerationPass
+  from pymtl3.passes.tracing.PrintTextWavePass import PrintTextWavePass
+  rng = sh.rng("ifc", case)
+  src, sigs, inputs = gen_ifc_design(rng)
+  mod = G.load_source(src, "c16i")
+  fname = os.path.join(os.getcwd(), f"wave_ifc_{sh.idx}_{case}")
+  try:
+    top = mod.Top(); top.elaborate()
+    top.apply(DefaultPassGroup(vcdwave=fname, textwave=True))
+    live = M.Live(top)
+    paths = sorted(sigs)
+    snaps = []
+    ncyc = rng.randrange(8, 30)
+    for cyc in range(ncyc):
+      top.reset @= int(cyc < 2)
+      for pth, w in inputs:
+        if rng.random() < 0.7: exec(f"{pth} @= {rng.getrandbits(w)}", {"s": top})
+      top.sim_eval_combinational()
+      snaps.append(live.snapshot(paths))           # the values the clock edge of this cycle sees
+      top.sim_tick()
+    text = open(fname + ".vcd").read()
+    vars_, changes = vcdparse.parse(text)
+    byname = {}
+    for scope, name, width, sym in vars_:
+      if (scope, name) in byname:
+        sh.violation("two-$vars-with-one-name-in-one-scope", {"scope": scope, "name": name, "design_source": src}, case=("ifc", case)); return
+      byname[(scope, name)] = (width, sym)
+    exp = {}
+    for pth, (w, host) in sigs.items():
+      scope = tuple(["top"] + [mangle(x) for x in host.split(".")[1:]])
+      exp[pth] = (scope, mangle(pth[len(host) + 1:]))
+    for pth in paths:
+      if exp[pth] not in byname:
+        sh.violation("signal-has-no-$var", {"signal": pth, "expected": exp[pth], "declared": sorted(k[1] for k in byname if k[0] == exp[pth][0])[:20],
+                                            "design_source": src}, case=("ifc", case)); return
+      if byname[exp[pth]][0] != sigs[pth][0]:
+        sh.violation("$var-width-differs-from-signal-width", {"signal": pth, "design_source": src}, case=("ifc", case)); return
+    extra = sorted(set(byname) - set(exp.values()))
+    if extra:
+      sh.violation("vcd-declares-vars-that-are-not-signals-of-the-design", {"extra": extra[:5], "design_source": src}, case=("ifc", case)); return
+    for pth in paths:
+      if pth.endswith(".clk") or pth == "s.clk": continue
+      ser = changes.get(byname[exp[pth]][1], [])
+      for t in range(ncyc):
+        sh.count("ifc_signal_cycle_comparisons")
+        got = vcdparse.value_at(ser, 100 * t)
+        if got != snaps[t][pth]:
+          sh.violation("vcd-value-differs-from-simulator-value-at-the-clock-edge", {"signal": pth, "cycle": t, "vcd": got, "simulator": snaps[t][pth],
+                                                                                    "design_source": src}, case=("ifc", case)); return
+    tw = top.get_metadata(PrintTextWavePass.textwave_dict)
+    for name, vals in tw.items():
+      if name not in sigs:
+        sh.violation("textwave-records-unknown-signal", {"signal": name, "design_source": src}, case=("ifc", case)); return
+      for t, v in enumerate(vals[:ncyc]):
+        if int(v[2:], 2) != snaps[t][name]:
+          sh.violation("textwave-value-differs-from-simulator-value", {"signal": name, "cycle": t, "textwave": v, "simulator": snaps[t][name],
+                                                                       "design_source": src}, case=("ifc", case)); return
+    missing = [p_ for p_ in paths if not p_.endswith(".clk") and not (p_.endswith(".reset") and p_ != "s.reset") and p_ not in tw]
+    if missing:
+      sh.violation("textwave-misses-signals", {"missing": missing[:5], "design_source": src}, case=("ifc", case)); return
+    sh.count("ifc_designs"); sh.count("evaluations"); sh.fp(("ifc", src))
+  except Exception as e:
+    sh.violation("tracing-raised-on-legal-design", {"error": traceback.format_exc()[-700:], "design_source": src}, case=("ifc", case))
+  finally:
+    G.unload(mod)
+    try: os.remove(fname + ".vcd")
+    except OSError: pass
+
+
 def run_shard(sh):
   if sh.idx == 0:
     run_big_case(sh)
+  for case in range(sh.params["designs"] // 2):
+    if sh.only is None: run_ifc_case(sh, case)
   for case in range(sh.params["designs"]):
     if sh.only is not None and str(case) != str(sh.only).strip('"'):
       continue
